@@ -482,13 +482,25 @@ def opC17Trust : List String → Res
 def opC17Wrap : List String → Res
   | [state, trustAll, answers] =>
     let st := if state = "known" then HostState.known else if state = "changed" then .changed else .unknown
-    -- CANCEL: nobody answers and the client's context ends — no answer is no approval
-    let ans := if answers = "CANCEL" then [] else (answers.splitOn ",").map str
-    let v := wrapDecision st (trustAll = "1") ans
-    let r := match v with
+    let render (v : Verdict) : String := match v with
       | .proceed => s!"proceed;untrusted=false;recorded=true;keptother=true"
       | .refuse => s!"refuse;untrusted=true;recorded=false;keptother=true"
       | .waiting => "timeout;untrusted=false;recorded=false;keptother=true"
+    -- several attempts through the same callback (rounds separated by '|'): a refusal leaves no trace that could
+    -- let a later attempt through — every round is decided on its own answers
+    let rounds := answers.splitOn "|"
+    if rounds.length > 1 then
+      let vs := rounds.map fun r => wrapDecision st (trustAll = "1") ((r.splitOn ",").map str)
+      let word (v : Verdict) : String := match v with | .proceed => "proceed" | .refuse => "refuse" | .waiting => "timeout"
+      -- the model covers sequences whose rounds before the last are refusals (nothing is recorded by a refusal)
+      let supported := (vs.dropLast).all fun v => v == .refuse
+      let r := joinWith "|" (vs.map word)
+      { m := if supported then r else "-", s := if supported then r else "-", t := s!"{state},rounds" }
+    else
+    -- CANCEL: nobody answers and the client's context ends — no answer is no approval
+    let ans := if answers = "CANCEL" then [] else (answers.splitOn ",").map str
+    let v := wrapDecision st (trustAll = "1") ans
+    let r := render v
     { m := r, s := r, t := s!"{state},{if trustAll = "1" then "trustall" else "ask"}" }
   | _ => bad
 
@@ -837,6 +849,30 @@ def opC13Tail : List String → Res
         t := joinWith "," ((if opl.any (·.startsWith "C") then ["cancel"] else []) ++ (if opl.any (·.startsWith "X") then ["truncate-retry"] else [])
             ++ (if obs.any (fun o => o.startsWith s!"{cap}/") then ["full"] else [])) }
     | _, _ => bad
+  | _ => bad
+
+/-- whole sessions sharing one limiter: at quiescence the limiter holds min(cap, reads of live sessions) tokens
+    (`C13_full_holds`: tokens = #holding ≤ cap; `C13_progress`: a free slot and a waiting read do not coexist at
+    quiescence), and a session that ends takes all its reads with it -/
+def opC13Session : List String → Res
+  | [cap, ops] => match cap.toNat? with
+    | some cap =>
+      let opl := (ops.splitOn ",").filter (· ≠ "")
+      let step (acc : List (Nat × Nat) × List String) (op : String) : List (Nat × Nat) × List String :=
+        let live := acc.1
+        let live := if op.startsWith "N" then
+            (match ((op.drop 1).toString.splitOn "x").map (·.toNat?.getD 0) with
+             | [s, k] => live ++ [(s, k)]
+             | _ => live)
+          else if op.startsWith "K" then live.filter (·.1 ≠ ((op.drop 1).toString.toNat?.getD 0))
+          else live
+        let reads := live.foldl (fun n e => n + e.2) 0
+        (live, acc.2 ++ [toString (min cap reads)])
+      let (_, obs) := opl.foldl step ([], [])
+      let r := joinWith "," obs ++ ";final=0"
+      { m := r, s := r, t := joinWith "," ((if opl.any (fun o => o.startsWith "N" ∧ ¬ o.endsWith "x1") then ["multi-command"] else [])
+          ++ (if obs.any (· == toString cap) then ["full"] else []) ++ (if opl.any (·.startsWith "K") then ["session-end"] else [])) }
+    | none => bad
   | _ => bad
 
 /-! C14 -/
@@ -1345,6 +1381,13 @@ def opC07GlobID : List String → Res
     | _ => bad
   | _ => bad
 
+/-- the final report against the periodic reporter on the same outfile: the outfile is the complete final result
+    (the theorems of C15 are about one writer; that the two writers of the client exclude each other is what this
+    op observes) -/
+def opC15Race : List String → Res
+  | [_n, _r] => { m := "complete", s := "complete", t := "two-writers" }
+  | _ => bad
+
 def dispatch (line : String) : Res :=
   match (line.splitOn " ").filter (· ≠ "") with
   | "gen.stats" :: a => opGenStats a
@@ -1381,8 +1424,10 @@ def dispatch (line : String) : Res :=
   | "c11.parse" :: a => opC11Parse a
   | "c13.script" :: a => opC13Script a
   | "c13.tail" :: a => opC13Tail a
+  | "c13.session" :: a => opC13Session a
   | "c14.script" :: a => opC14Script a
   | "c15.write" :: a => opC15Write a
+  | "c15.race" :: a => opC15Race a
   | "c16.colorfy" :: a => opC16Colorfy a
   | "c16.write" :: a => opC16Write a
   | "c17.trust" :: a => opC17Trust a
